@@ -201,8 +201,13 @@ def make_spy(base_cls, ctl: FsControl):
 def mem_snapshot(fs_state):
     """Snapshot of a MemoryPathIO state: {path: None (dir) | bytes}."""
     out = {}
+    seen = set()
 
     def walk(nodes, prefix):
+        if id(nodes) in seen:  # a corrupted (cyclic) tree must not hang the harness
+            out[prefix + "/<cycle>"] = None
+            return
+        seen.add(id(nodes))
         for node in nodes:
             p = prefix + "/" + node.name if node.name != "/" else ""
             if node.type == "dir":
